@@ -563,9 +563,26 @@ def check_deriv_2d(ctx: Ctx):
     for s in ast.walk(lp.node):
         if isinstance(s, ast.AugAssign) and isinstance(s.target, ast.Name) and isinstance(s.op, (ast.Add, ast.Sub)):
             ups.setdefault(s.target.id, []).append(s)
+    # loop-local temporaries (nφ = n * φs) are substituted into the updates first
+    tmp_defs: dict = {}
+    for s_ in ast.walk(lp.node):
+        if isinstance(s_, ast.Assign) and len(s_.targets) == 1 and isinstance(s_.targets[0], ast.Name) and s_.targets[0].id not in ups and s_.targets[0].id != lp.idx:
+            tmp_defs.setdefault(s_.targets[0].id, []).append(s_.value)
+    tmp_env = {k: v[0] for k, v in tmp_defs.items() if len(v) == 1}
+
+    class _T(ast.NodeTransformer):
+        def visit_Name(self, n):
+            if isinstance(n.ctx, ast.Load) and n.id in tmp_env:
+                return _T().visit(copy.deepcopy(tmp_env[n.id]))
+            return n
+
+    if tmp_env:
+        for lst in ups.values():
+            for s_ in lst:
+                s_.value = _T().visit(copy.deepcopy(s_.value))
     # the angle variable: the argument of sin/cos inside the loop other than the index
     var = None
-    for c in ast.walk(lp.node):
+    for c in [x for lst in ups.values() for s_ in lst for x in ast.walk(s_.value)]:
         if isinstance(c, ast.Call) and (dotted(c.func) or "").split(".")[-1] in ("sin", "cos"):
             cand = names_in(c.args[0]) - {lp.idx}
             if len(cand) == 1:
